@@ -47,6 +47,11 @@ def dispatch (d : DS) (line : String) : DS × String :=
         else if (want.drop 5).toString != (body.drop 5).toString then
           s!"specviol graceful close (HTTP Connection: close): the peer received {(body.drop 5).toString} of {(want.drop 5).toString} body bytes the handler had written before the transport was closed"
         else "ok graceful")
+  | ["C06", "deadline", variant, want, got] =>
+    -- a caller's context deadline must not reach the transport of a queued channel: the sender's write in flight carries accepted payloads
+    (d, if (want.drop 5).toString != (got.drop 4).toString then
+          s!"specviol graceful close: the peer received {(got.drop 4).toString} although {(want.drop 5).toString} had been accepted before Close was invoked (a CtxWrite call with a deadline was made meanwhile: {variant})"
+        else "ok graceful")
   | "C06" :: rest => let (s, o) := Driver.Chan.handle "C06" d.chan rest; ({ d with chan := s }, o)
   | "C10" :: rest => let (s, o) := Driver.Chan.handle "C10" d.chan rest; ({ d with chan := s }, o)
   | "C11" :: "rf" :: rest => (d, Driver.C11.handle ("rf" :: rest))
